@@ -2,8 +2,10 @@
 
     - [Driver.op]: in addition to [Total.allowed], [find_or_add] (with the
       caller obligation of [find_or_add_total]), [copy_bdd] from ANY source
-      manager, [image]/[preimage] with any arguments, and the harness setters
-      that do not enable reordering;
+      manager, [image]/[preimage] with any arguments, the harness setters
+      that do not enable reordering, and the node limit [max_nodes] (any
+      value: a full table makes a later call fail with [ERuntime], which is
+      one of the outcomes that the theorems cover);
     - [Driver2.op2]: the read-only operations ([count], [pick_iter], [pick],
       [descendants], [succ], [level_of_var], [var_at_level], [len],
       [__contains__], [to_nx], [_to_dot], the pickle dumps), [undeclare_vars]
@@ -120,7 +122,7 @@ Proof. intros HI Hs u Hu. destruct (safe_den s s' HI Hs u Hu) as (?&_&?). done. 
 Definition extra1 (o : op) : bool :=
   match o with
   | OFindOrAdd _ _ _ | OCopy _ _ | OImage _ _ _ _ _ _ _ | OPreimage _ _ _ _ _ _ _
-  | OSetRoots _ | OTape _ | OSetTrig _ => true
+  | OSetRoots _ | OTape _ | OSetTrig _ | OSetMaxNodes _ => true
   | OSetLastLen l => bool_decide (l = None)
   | _ => false
   end.
@@ -180,6 +182,10 @@ Proof.
   - (* OSetRoots *)
     cbn [bind modify ret] in H. injection H as <- <-.
     destruct (Hsame (s <| roots := r0 |>)) as [HG1 HK1]; [by repeat split|done|done|].
+    split; [done|split; [done|done]].
+  - (* OSetMaxNodes: [bdd.max_nodes = n] *)
+    cbn [bind modify ret] in H. injection H as <- <-.
+    destruct (Hsame (s <| max_nodes := n |>)) as [HG1 HK1]; [by repeat split|done|done|].
     split; [done|split; [done|done]].
   - (* OCopy *)
     destruct (w !! src) as [ssrc|].
